@@ -11,7 +11,11 @@ def run(c):
               "min/max host, group-by incl. shard in caller order, sort none/asc/desc, all 11 LOD steps + the 1-month step with a "
               "time-zone name + an unknown step, utc offsets, 3 SETTINGS texts, sharded or not, tag-values tag with own raw/raw64 flags "
               "and index incl. string-top; the REAL writeWhere text AND the REAL complete body of buildSeriesQuery / buildTagValuesQuery / "
-              "buildTagValueIDsQuery (byte for byte), their literal scans and the selection of 8 rows are compared with the Lean model; non-trivial = some filter string "
+              "buildTagValueIDsQuery (byte for byte), their literal scans and the selection of 8 rows are compared with the Lean model; about half of the filters are given as the USER'S FILTER STRINGS (empty, ' 0', raw codes incl. 64-bit and invalid ones, mapped/unmapped hostile "
+              "strings, value comments and bucket labels of raw tags) and converted by the REAL requestHandler.GetTagFilter over an in-memory "
+              "string->id mapping, its result compared with the model and fed into the real builders; every where integer expression is "
+              "evaluated (ClickHouse typing) on edge Int32 halves incl. low halves with bit 31 set and compared with the model's tree; "
+              "non-trivial = some filter string "
               "contains a quote or backslash, or a regex / empty value / raw tag / raw64 tag is present; distinct by op-sequence hash")
     c.assumptions += [
         "TRUSTED, NOT CHECKED AGAINST ClickHouse: the single-quoted literal lexer/decoder `lexLit`/`scan` is written from ClickHouse's "
@@ -19,6 +23,14 @@ def run(c):
         "one character; ReadHelpers.cpp parseComplexEscapeSequence: '' -> ', \\xHH, \\N -> nothing, \\a\\b\\e\\f\\n\\r\\t\\v\\0, "
         "unknown escapes keep the backslash). ClickHouse is not available here; the theorems need of it only: backslash-backslash "
         "-> backslash, backslash-quote -> quote, every other byte except quote/backslash stands for itself",
+        "TRUSTED ClickHouse integer typing used by the evaluators (Go oracle and Lean IExpr.eval): tagN/pre_tag/_prekey are Int32 columns, "
+        "_tagN aliases Int64; toUInt32(x) keeps the low 32 bits as UInt32; toInt64(x) preserves the value; bitShiftLeft(a,n) has the type "
+        "of a and shifts inside its width; bitOr(a,b) converts both operands value-preservingly to the common type (64 bits if either "
+        "is 64-bit or if an Int32 meets a UInt32; signed if either is signed), so a negative Int32 operand is sign-extended; = and IN "
+        "compare integers by value",
+        "GetTagFilter: builtin-kind tags (metric/group/namespace pseudo-tags) are not exercised; ValueComments keys are distinct and "
+        "non-empty; strconv.ParseFloat+LexEncode (bucket labels) is an input of the model; rows never hold the reserved id -2 "
+        "(TagValueIDDoesNotExist), which GetTagFilter gives to a string without mapping (hypothesis r.n != -2, shown necessary)",
         "configuration, not filter values: the LOD time-zone name is written between quotes WITHOUT escaping (1-month step); the "
         "whole-query theorems assume it has no quote/backslash and that the SETTINGS text has no quote/parenthesis (hypothesis QOK)",
         "digest kinds are DigestWhat values 1..9 (a number >= DigestLast would index has[DigestLast]bool out of range before the "
@@ -64,7 +76,11 @@ META = {
              "written once, escaped, in positive and negative clauses of non-raw tags, decodes back to itself whatever follows "
              "(regex_literal_decodes, regex_decodes_in_tag) and is not written for raw tags. The condition tree written for a tag selects a "
              "row iff the row matches some requested value (positive) / none (negative), with the 0!=0 / 0=0 conventions, the empty value "
-             "and raw tags (where_selects_exactly). The model is tied to the code by comparing the real writeWhere output and the real "
+             "and raw tags (where_selects_exactly). End to end from the user's filter strings (filter_strings_select_exactly): whenever "
+             "GetTagFilter accepts the strings, the written condition selects a row iff its tag has the meaning of one of them — \"\" and the "
+             "raw code \" 0\" are the EMPTY value (integer 0 and no string value), so unmapped-string rows are not selected by it. For 64-bit "
+             "raw tags the emitted bitOr/bitShiftLeft/toUInt32 expression evaluates to exactly the value its two Int32 columns encode "
+             "(raw64_reassembles, raw64_hits_value), for all halves. The model is tied to the code by comparing the real writeWhere output and the real "
              "complete query body byte for byte; the real text is also re-lexed, parsed and evaluated independently by the Go oracle."),
     "note": ("Trusted and explicit: (1) the ClickHouse literal-lexer model (lexLit/scan) is written from memory of ClickHouse's Lexer.cpp / "
              "ReadHelpers.cpp and is NOT validated against a ClickHouse binary (none available offline); only three facts of it are used by "
@@ -76,6 +92,10 @@ META = {
              "freeness, literal placement and parenthesis balance; the Go oracle parses the real where text with a grammar), result-column "
              "binding (q.res). Observation outside the property: MetricMetaValue.RestoreCachedInfo tests tag.Index before assigning it, so an "
              "int64 kind on tag 47 survives the first validation and a filter on that tag panics raw64Expr (format.TagID(48)); the harness "
-             "stays inside validated metadata."),
+             "stays inside validated metadata. Third round: GetTagFilter (promql.go) and the integer-expression evaluator are now inside the "
+             "model, the correspondence and the oracle (signatures raw64-expr-wrong-value, raw64-select-wrong-value; where-selects-wrong-rows "
+             "now judges string-derived filters by the meaning of the user's strings). Observation: on a RAW tag a plain string that is no "
+             "value comment becomes NewTagValue(s,-2) and is rendered `tagN IN (-2)`, which would select a raw value -2; excluded by the "
+             "r.n != -2 hypothesis."),
     "design_ref": "DESIGN.md §6 C26",
 }
